@@ -17,7 +17,7 @@ SITE_TOP = lambda case: case.split()[1] if len(case.split()) > 1 else "?"
 # ------------------------------------------------------------------ value descriptions → expected JSON image
 def parse_vd(toks, i):
     t = toks[i]
-    if t == "undef" or t == "none":
+    if t in ("undef", "none", "X"):
         return ("null",), i + 1
     h, rest = t[0], t[1:]
     if h == "T":
@@ -185,6 +185,18 @@ def check_lines(r, lines, model):
             r.hist["derived"][case.split()[1]] += 1
             if res != "ok":
                 r.oracle_failure(case, res[:400], "derived:" + case.split()[1] + ":" + res.split(":")[0])
+        elif stream == "derivedx":
+            # tagged / untagged enums, flatten, renames, Cow, serde_json::Value, Serde<T> arguments: extra oracle;
+            # 128-bit integers and Option<Option<T>> are outside the statement (recorded only)
+            r.count(case, True)
+            ty = case.split()[1]
+            res = f[1]
+            r.hist["derivedx"][ty + ":" + res.split(":")[0]] += 1
+            if ty in ("Wide", "OptOpt"):
+                if res.startswith("panic"):
+                    r.oracle_failure(case, res[:300], "derivedx:" + ty + ":panic")
+            elif res != "ok":
+                r.oracle_failure(case, res[:400], "derivedx:" + ty + ":" + res.split(":")[0])
         elif stream == "embed":
             r.count(case, True)
             _, ctx, kind, _seed = case.split()
@@ -194,17 +206,36 @@ def check_lines(r, lines, model):
         elif stream == "json":
             toks = case.split()
             mode = toks[1]
-            cls = "tojson" if mode.startswith("tojson") else "autoescape"
+            cls = "tojson" if mode.startswith("tojson") else "autoescape" if mode.startswith("auto") else "serde_json"
+            # an object whose iterator lies about its length is outside the statement: only the model tie applies
+            liar = any(t.startswith("Zl") for t in toks)
             exp, _ = parse_vd(toks, 2)
             out, alpha, sj = f[1], f[2], f[3]
             r.count(case, len(toks) > 3 or len(toks[2]) > 1)
             r.hist["json_mode"][mode] += 1
-            if out.startswith("err:") or out == "panic":
+            failed = out.startswith("err:") or out == "panic"
+            if m is not None:
+                if m[0] == "bad-case":
+                    r.broken.append("model driver could not read case " + case[:120])
+                elif m[0] == "?":
+                    r.hist["model"]["unmodelled:json"] += 1
+                elif m[0] in ("refuse", "panic"):
+                    want = "panic" if m[0] == "panic" else "err:"
+                    if not out.startswith(want):
+                        r.model_disagreement(case, out[:200], "model: " + m[0])
+                    else:
+                        r.hist["model"]["agree:json:" + m[0]] += 1
+                elif failed or m[2] != "impl:same" or (m[1] != "back:ok" and not liar):
+                    r.model_disagreement(case, out[:300], "\t".join(m)[:300])
+                else:
+                    r.hist["model"]["agree:json:same"] += 1
+            if liar:
+                r.hist["json_result"]["lying-object"] += 1
+                continue
+            if failed:
                 r.hist["json_result"]["refused" if has_bad_key(exp) else "error"] += 1
                 if out == "panic" or not has_bad_key(exp):
                     r.oracle_failure(case, f"{mode} failed ({out}) on a value that has a JSON image", f"json:{cls}:error")
-                if m is not None and m[0] not in ("refuse", "?"):
-                    r.model_disagreement(case, out, "model emits text")
                 continue
             text = bytes.fromhex(out).decode("utf-8")
             if cls == "tojson":
@@ -229,24 +260,19 @@ def check_lines(r, lines, model):
             r.hist["json_result"]["ok"] += 1
             if sj == "sj:bad":
                 r.oracle_failure(case, f"serde_json reads {text[:160]!r} differently from the value's image", f"json:{cls}:serde_json")
-            if m is not None:
-                if m[0] == "?":
-                    r.hist["model"]["unmodelled:json"] += 1
-                elif m[0] == "refuse":
-                    r.model_disagreement(case, out, "model refuses")
-                elif m[1] != "back:ok" or m[2] != "impl:same":
-                    r.model_disagreement(case, out, "\t".join(m))
-                else:
-                    r.hist["model"]["agree:json:" + m[2][5:]] += 1
         elif stream == "ser":
             # `impl Serialize for Value` through the shape-recording serializer: the serde length contract
             r.count(case, True)
             log, verdict = f[1], f[2]
             r.hist["ser_contract"][verdict.split(":")[1]] += 1
-            if verdict != "contract:ok":
+            if verdict != "contract:ok" and not any(t.startswith("Zl") for t in case.split()):
                 what = verdict[len("contract:bad:"):] if verdict.startswith("contract:bad:") else log[:100]
                 site = "ser:contract:" + ("seq" if "serialize_seq" in what else "map" if "serialize_map" in what else "error")
                 r.oracle_failure(case, "Value::serialize broke the serde length contract: " + what, site)
+            tv = f[3] if len(f) > 3 else "tv:skip"
+            r.hist["to_value"][tv[3:]] += 1
+            if tv in ("tv:bad", "tv:panic") and not any(t.startswith("Zl") for t in case.split()):
+                r.oracle_failure(case, "serde_json::to_value(&value) differs from the value's JSON image (" + tv + ")", "ser:to_value")
             if m is not None and m[0] != log:
                 r.model_disagreement(case, log, m[0])
             elif m is not None:
@@ -297,7 +323,10 @@ def run(r):
               "13 derived types, embedded values in 13 contexts x 18 kinds, lazily produced sequences/maps of 24 kinds (one-shot iterators, "
               "make_iterable adapters, custom Objects with every Enumerator answer) at top level and nested through every JSON mode, a "
               "shape-recording serializer (serde length contract) and as deserialisation sources, 50 template-built lazy expressions, "
-              "JSON texts of random values/strings in 7 tojson/auto-escape modes "
+              "objects lying about their length (model tie only), invalid values, nesting to depth 200, representation/attribute variants of derived types "
+              "(tagged/untagged enums, flatten, renames, Cow, serde_json::Value, Serde<T> arguments), conversions that fail or panic midway, "
+              "JSON texts of random values/strings in 11 modes (tojson compact/indents/in html/Expression API, auto-escape by template name, "
+              "autoescape block into an io::Write, serde_json::to_string / to_string_pretty / to_value directly) "
               "(+ every single character below U+0100 and the separator/surrogate-neighbour characters); a case is non-trivial when the "
               "shape/value is composite")
     r.assumptions = [
@@ -307,11 +336,12 @@ def run(r):
         "map keys without a JSON string form (none, sequences, bytes, non-finite floats) make tojson fail instead of emitting text",
         "the shortest round-trip digits of a double are those of the model's exact-arithmetic search (validated on every float case; the token's grammar is proved, its value is checked by Python)",
         "integers held in a 128-bit representation although they fit 64 bits are not distinguished by the model",
+        "serde_json's Serializer / PrettyFormatter are transcribed into MJ/Model/JsonSer.lean from the locked sources (the `len == Some(0)` shortcut and the indent counter are re-extracted on every run; the transcription is validated by predicting every emitted text, including those of objects that lie about their length)",
         "iterators behind Enumerator::Iter/RevIter report honest size hints (lower <= count <= upper) and Object::enumerator_len is not overridden with a wrong answer (the serde length contract theorem is stated for such objects)",
         "lazily produced values used as keys of an ordered map and plain objects as deserialisation sources are out of scope",
         "a safe string printed directly under JSON auto-escaping is written verbatim (safe = already escaped by definition)",
     ]
-    r.regen_tables(["TOJSON_REPLACEMENTS", "TOJSON_TRUE_INDENT", "JINJA_JSON_SEPARATORS", "VALUE_HANDLE_MARKER", "SERDE_JSON_ESCAPE"])
+    r.regen_tables(["TOJSON_REPLACEMENTS", "TOJSON_TRUE_INDENT", "VALUE_SERIALIZE_LENGTHS", "ENUMERATOR_QUERY_LEN", "SERDE_JSON_COMPOUND", "SERIALIZATION_FLAG_GUARD", "JINJA_JSON_SEPARATORS", "VALUE_HANDLE_MARKER", "SERDE_JSON_ESCAPE"])
     r.lean_prove("MJ.Props.C16", "MJ/Audit/C16.lean", extra_targets=["drive_c16"])
     exe = r.cargo_build("c16")
     if exe is None:
